@@ -111,9 +111,10 @@ def run(ctx):
         res.count("subroutine-len:%d" % min(len(instrs), 20))
         if len(instrs) > 0:
             res.nontrivial.add(("sub", json.dumps(rq, sort_keys=True)))
-        if ms.get("b") != rb:
+        enc_agrees = ms.get("b") == rb
+        if not enc_agrees:
+            # the model-free round-trip oracle below still runs: it is what yields the failing input
             res.disagreements.append({"stream": "codec.encsub", "input": rq, "model": "…", "code": "…"})
-            continue
         if rb is None:
             continue
         rs = H.real_decode_sub(fname, rb)
@@ -122,7 +123,7 @@ def run(ctx):
         else:
             rsj = {"v0": rs.netqasm_version[0], "v1": rs.netqasm_version[1], "app": rs.app_id,
                    "is": [H.instr_to_json(i) for i in rs.instructions]}
-        if md != rsj:
+        if enc_agrees and md != rsj:
             res.disagreements.append({"stream": "codec.decsub", "input": {"fl": fname, "b": rb},
                                       "model": md, "code": rsj})
         # the public function entry point must agree with the Deserializer class
